@@ -1,5 +1,6 @@
 import BreezyVerif.Common
 import BreezyVerif.Model.C04
+import BreezyVerif.Driver.C04Proto
 /-
 C04 driver.
 
@@ -16,59 +17,6 @@ state after every prefix (including the empty one); state =
 `names|files|torn|L or U`, each list sorted.
 -/
 namespace BreezyVerif.C04
-
-def showDir : Dir → String
-  | .upload => "u" | .packs => "p" | .indices => "i" | .obsolete => "o"
-
-def showExt : Ext → String
-  | .pack => "pack" | .autopack => "autopack" | .rix => "rix" | .iix => "iix"
-  | .tix => "tix" | .six => "six" | .cix => "cix"
-
-def parseExt (s : String) : Option Ext :=
-  if s == "pack" then some .pack else if s == "autopack" then some .autopack
-  else if s == "rix" then some .rix else if s == "iix" then some .iix
-  else if s == "tix" then some .tix else if s == "six" then some .six
-  else if s == "cix" then some .cix else none
-
-def showFile (f : File) : String := s!"{showDir f.dir}{f.stem}.{showExt f.ext}"
-
-def parseFile (s : String) : Option File :=
-  match s.toList with
-  | [] => none
-  | c :: rest =>
-    let d : Option Dir := if c == 'u' then some .upload else if c == 'p' then some .packs
-      else if c == 'i' then some .indices else if c == 'o' then some .obsolete else none
-    match d, (String.ofList rest).splitOn "." with
-    | some d, [n, e] => do pure ⟨d, ← n.toNat?, ← parseExt e⟩
-    | _, _ => none
-
-def parseFiles (s : String) : Option (List File) := (splitList s).mapM parseFile
-
-def sortStr (l : List String) : List String := l.mergeSort (fun a b => decide (a ≤ b))
-def sortNat (l : List Nat) : List Nat := l.mergeSort (fun a b => decide (a ≤ b))
-
-def showNats (l : List Nat) : String := joinList ((sortNat l).map toString)
-def showNatsRaw (l : List Nat) : String := joinList (l.map toString)
-
-def showOp : Op → String
-  | .beginWrite f => s!"bw:{showFile f}"
-  | .endWrite f => s!"ew:{showFile f}"
-  | .move a b => s!"mv:{showFile a}>{showFile b}"
-  | .delete f => s!"rm:{showFile f}"
-  | .lock => "lk"
-  | .unlock => "ul"
-  | .putNames ns => s!"pn:{showNats ns}"
-
-def showDisk (d : Disk) : String :=
-  s!"{showNats d.names}|{joinList (sortStr (d.files.map showFile))}|{joinList (sortStr (d.torn.map showFile))}|{if d.locked then "L" else "U"}"
-
-def prefixes (d : Disk) : List Op → List Disk
-  | [] => [d]
-  | op :: rest => d :: prefixes (step d op) rest
-
-def showRun (d : Disk) (ops : List Op) : String :=
-  let o := if ops.isEmpty then "-" else ";".intercalate (ops.map showOp)
-  s!"{o} {"/".intercalate ((prefixes d ops).map showDisk)}"
 
 def parseCounts (s : String) : Option (List (Nat × Nat)) :=
   (splitList s).mapM fun t => match t.splitOn ":" with
